@@ -28,7 +28,7 @@ for pid, c in claimed.items():
             "design_ref": "DESIGN.md §5 " + pid
         },
         "level_note": "Trusted: the znvc generator, go/ssa, the SMT solvers, contracts assumed for external (stdlib) functions, callees without contract (listed per run in evidence.coverage.trusted_base / assumptions); the glue from per-function contracts to whole-program statements is a paper argument (DESIGN §1). " + " ".join(c.get('assumptions', [])),
-        "technique": "contract-based deductive verification (self-generated weakest-precondition VCs over go/ssa, SMT-discharged)"
+        "technique": "contract-based deductive verification (self-generated weakest-precondition VCs over go/ssa, SMT-discharged)" + ((" plus whole-module site inventories evaluated on go/ssa as side conditions of the frame arguments (" + ", ".join(c['inventories']) + "; reported as obligations of kind inventory)") if c.get('inventories') else "")
     })
 m = {
     "version": 1,
